@@ -283,7 +283,13 @@ def canon_of(S: wirerig.Session, u: dict, what: str) -> dict:
         canon['addpath'] = True
     p2 = next((a for a in u['a'] if a['code'] == 2), None)
     p4 = next((a for a in u['a'] if a['code'] == 17), None)
-    if p2 is not None and p4 is not None:
+    agg = next((a for a in u['a'] if a['code'] == 7), None)
+    if p2 is not None and p4 is not None and agg is not None and 18 in codes:
+        # the shrinker kept both aggregator attributes: the outcome depends on them (RFC 6793 4.2.3:
+        # AGGREGATOR without AS_TRANS voids AS4_AGGREGATOR and AS4_PATH); the path shapes do not matter
+        canon['aggregator'] = 'as-trans' if agg['f'][0] == str(wiregen.AS_TRANS) else 'not-as-trans'
+        canon['as4-path'] = 'non-empty' if p4['segs'] else 'empty'
+    elif p2 is not None and p4 is not None:
         # coarse on purpose, so that the form does not depend on which minimal path the shrinker reached
         if not p4['segs']:
             canon['as4-path'] = 'empty'
